@@ -262,3 +262,8 @@ var storeProp = h.Define(P, "store", func(t *rapid.T) chain.StoreCase { return c
 	func(c *h.Ctx, sc chain.StoreCase) { chain.RunStore(c, sc, "C03") })
 
 func TestStore(t *testing.T) { storeProp.Check(t) }
+
+// Concurrent checks of different invocations over different chains (chain/conc.go), race-detector build.
+var concChainsProp = h.Define(P, "concchains", chain.DrawConcChains, func(c *h.Ctx, cc chain.ConcChains) { chain.RunConcChains(c, cc, "C03") })
+
+func TestConcurrentChains(t *testing.T) { concChainsProp.Check(t) }
